@@ -579,13 +579,22 @@ def run_comment_order(prog, tier, repo):
             continue
         cfg = cfg_of(b)
 
-        def age(op):
+        def age(op, at=None, depth=0):
             r, p = operand_root(b, op)
             if r is None:
                 return None, None
             names = [e[4] for e in p if e[0] == 'f']
             if 1 <= r <= b.nargs:
                 if names:
+                    # `mem::replace(&mut parser.field, v)` before this point: the field now holds v
+                    if at is not None and depth < 3:
+                        for bj, blj in enumerate(b.blocks):
+                            tj = blj.term
+                            if blj.cleanup or tj[0] != 'call' or len(tj[3]) != 2 or not (callee(tj)[1] or '').endswith('mem::replace'):
+                                continue
+                            rj, pj = operand_root(b, tj[3][0])
+                            if rj == r and [e[4] for e in pj if e[0] == 'f'] == names and bj != at and cfg.nodes_dominate([bj], at):
+                                return age(tj[3][1], bj, depth + 1)[0], (r, tuple(names))
                     return ('now',), (r, tuple(names))
                 return ('entry',), (r, ())
             sd = single_def(b, r)
@@ -593,6 +602,11 @@ def run_comment_order(prog, tier, repo):
                 cn = (callee(sd[2])[1] or '').split('::')[-1]
                 if cn in ('new', 'default', 'with_capacity'):
                     return ('empty',), (r, ())
+                if (callee(sd[2])[1] or '').endswith(('mem::replace', 'mem::take')) and sd[2][3]:
+                    # the previous content of the place it was taken out of
+                    r0, p0 = operand_root(b, sd[2][3][0])
+                    if r0 is not None and 1 <= r0 <= b.nargs and [e for e in p0 if e[0] == 'f']:
+                        return ('now',), (r, ())
                 return ('call', sd[0]), (r, ())
             if sd and sd[1] != 'term' and sd[2][0] == 'agg':
                 return ('empty',), (r, ())
@@ -612,8 +626,8 @@ def run_comment_order(prog, tier, repo):
             return False
         seen = {}
         for bi, t in sites:
-            ax, kx = age(t[3][0])
-            ay, ky = age(t[3][1])
+            ax, kx = age(t[3][0], bi)
+            ay, ky = age(t[3][1], bi)
             if kx is None or ky is None:
                 continue
             n += 1
